@@ -28,7 +28,7 @@ func genC05(dir, tier string, seed int64) {
 	defer func() { payloadAsIntegers = false }()
 	n := 900
 	if tier == "thorough" {
-		n = 15000
+		n = 40000
 	}
 	cw := newCaseWriter(dir, "C05_conv", opHeader("CheckC05"), opFooter,
 		"seeded random, stratified: 1-D and 2-D; N,C,M in 1..3 (one case in eight with 4..9 kernels, one in twelve with 4..6 channels / 4..5 samples); spatial extents 2..7 per axis independently (non-square; 1 in one axis of six); kernel extents 1..3 per axis independently (extent 1 kept a minority: mostly refused); strides 1..3 and dilations 1..2 per axis independently; pads 0..2 per side independently; auto_pad in {absent, NOTSET, SAME_UPPER, SAME_LOWER, VALID}; kernel_shape given or inferred; group absent, 1, or (1 case in 14 each) another value / an attribute Conv does not know, inserted at a random position of the attribute list, with the weight shape of a grouped convolution in half of them; bias present/absent; float32 and float64; integer-valued data in -3..3 so that float arithmetic is exact and results are compared exactly", false, 300)
